@@ -61,7 +61,7 @@ func checkInventory(c *core.Ctx, rule, key string, got map[string]string, allowe
 }
 
 func c05(c *core.Ctx) {
-	c.Explain("C05 (session lifecycle): decided statically — R1 the take-over protocol of lockDuplicatedID: the connection waited for is the one registered under the client id, it is told to stop (setError, Close) before the wait, the wait happens with the server lock released, and after the wait every path re-checks the session/online table before returning; R2 the tables of online clients, offline deadlines, queues and unack stores are written only by their confirmed writers, and the online-client entry is installed only when registration succeeded; R3 a session is resumed only without Clean Start and only when not expired, the CONNACK's Session Present is register's result; R4 the expiry decision is based on the deadline recorded when the last connection ended (offlineClients), that deadline is 'disconnect time + expiry interval', and every successful registration clears it; R6 a session is stored at disconnect iff its expiry interval is non-zero and it was not force-removed, and a Session Expiry Interval carried by DISCONNECT overrides the stored one whatever its value (including 0).")
+	c.Explain("C05 (session lifecycle): decided statically — R1 the take-over protocol of lockDuplicatedID: the connection waited for is the one registered under the client id, it is told to stop (setError, Close) before the wait, the wait happens with the server lock released, and after the wait every path re-checks the session/online table before returning; R2 the tables of online clients, offline deadlines, queues and unack stores are written only by their confirmed writers, and the online-client entry is installed only when registration succeeded; R3 a session is resumed only without Clean Start and only when not expired, the CONNACK's Session Present is register's result; R4 the expiry decision is based on the deadline recorded when the last connection ended (offlineClients), that deadline is 'disconnect time + expiry interval', and every successful registration clears it; R6 a session is stored at disconnect iff its expiry interval is non-zero and it was not force-removed, and a Session Expiry Interval carried by DISCONNECT overrides the stored one whatever its value (including 0). Added in the second round: A recorded offline deadline decides alone; every deadline written to offlineClients is now+interval; a DISCONNECT without the expiry property leaves the interval unchanged.")
 	c.NotDecided("expiry arithmetic over real time; interleavings of simultaneous CONNECTs beyond the protocol shape and the lock discipline (C15)")
 	p := c.P
 	offlineDeadlineBase(c, "C05.R4")
